@@ -83,7 +83,11 @@ def cases(rng, tier):
     for g1, p1, g2, p2 in (rng.sample(edits, 4) if tier == "quick" else edits * 3):
         yield ("gate", {"gate": g2, "params": p2, "edit_first": {"gate": g1, "params": p1, "side": rng.randrange(2),
                                                                    "op": rng.choice(["s", "h", "x"]), "front": rng.random() < 0.5}})
-    for bad in ["h", "ccx", "unbound_rzz", "unbound_cp", "opaque2q", "measure", "barrier2", "unbound_unitary_like"]:
+    # gates that went through serialisation (equal name strings are then not the interned literals)
+    for name, ps in (("crz", [0.7]), ("crx", [1.3]), ("cry", [2.1]), ("cp", [0.9]), ("rzz", [0.4]), ("cs", []), ("csdg", []), ("cx", []), ("swap", [])):
+        yield ("gate", {"gate": name, "params": ps, "pickled": True})
+    for bad in ["h", "ccx", "unbound_rzz", "unbound_cp", "opaque2q", "measure", "barrier2", "unbound_unitary_like",
+                "mcphase2", "mcphase3", "mcu1_2", "phase_ctrl2"]:
         yield ("refuse", {"gate": bad})
 
 
@@ -110,6 +114,18 @@ def _gate(payload):
         L = np.kron(random_unitary(2, seed=s[0]).data, random_unitary(2, seed=s[1]).data)
         R = np.kron(random_unitary(2, seed=s[2]).data, random_unitary(2, seed=s[3]).data)
         return UnitaryGate(L @ U @ R)
+    if n in ("mcphase2", "mcphase3", "mcu1_2", "phase_ctrl2"):
+        # phase gates with two or three controls: three/four-qubit instructions that share their name with nothing cuttable
+        from qiskit.circuit.library import MCPhaseGate, PhaseGate
+        if n == "phase_ctrl2":
+            return PhaseGate(0.7).control(2)
+        if n == "mcu1_2":
+            try:
+                from qiskit.circuit.library import MCU1Gate
+                return MCU1Gate(0.7, 2)
+            except Exception:
+                return MCPhaseGate(0.7, 2)
+        return MCPhaseGate(0.7, 2 if n == "mcphase2" else 3)
     if n == "unbound_rzz":
         return RZZGate(Parameter("t"))
     if n == "unbound_cp":
@@ -122,7 +138,11 @@ def _gate(payload):
         return Measure()
     if n == "barrier2":
         return Barrier(2)
-    return canon.mk_op(n, payload.get("params", ()))
+    g = canon.mk_op(n, payload.get("params", ()))
+    if payload.get("pickled"):
+        import pickle
+        g = pickle.loads(pickle.dumps(g))
+    return g
 
 
 def _env(kind, payload, gate=None):
